@@ -156,7 +156,7 @@ def write_pkg(d, case, order=None):
             aps = None
         else:
             flux = np.array([case['flux'][i][j] for i in oj], dtype=float)
-            aps = np.array(case['aps'][j], dtype=float) * u.au
+            aps = np.array(case['aps'][j], dtype=np.float32 if case.get('ap_dtype') == 'float32' else float) * u.au      # (real packages store the APERTURE column in single precision)
         c = ConvolvedFluxes(wavelength=w * u.micron, model_names=names_j, apertures=aps, flux=flux * u.mJy, error=flux * 0.0 * u.mJy)
         c.write(os.path.join(d, 'convolved', 'F%d.fits' % j))
     if case.get('fmt') == 'v2':
